@@ -1,4 +1,5 @@
 import BvaProofs.Base
+import BvaModel.Dynamic
 /-!
 # T7a — element edits and resizing: `set`, `pop`, `shrink`, `grow`, `push`, `resize`, `zeros`, `ones`,
 `reserve`, `shrinkToFit`, `withCapacity`
@@ -6,8 +7,10 @@ import BvaProofs.Base
 namespace Bva
 variable {w : Nat}
 
+-- Generic helper lemmas live under `Bva.Edit.` so that they cannot clash with other proof files.
+
 -- ---- word-level reads of updated arrays -------------------------------------------------------------
-theorem wd_setIfInBounds (ws : Array (BitVec w)) (j i : Nat) (x : BitVec w) :
+theorem Edit.wd_setIfInBounds (ws : Array (BitVec w)) (j i : Nat) (x : BitVec w) :
     wd (ws.setIfInBounds j x) i = if j = i ∧ j < ws.size then x else wd ws i := by
   unfold wd
   simp only [Array.getD_eq_getD_getElem?, Array.getElem?_setIfInBounds]
@@ -18,7 +21,7 @@ theorem wd_setIfInBounds (ws : Array (BitVec w)) (j i : Nat) (x : BitVec w) :
     · simp [h2]
   · simp [h]
 
-theorem wd_modify (ws : Array (BitVec w)) (j i : Nat) (f : BitVec w → BitVec w) :
+theorem Edit.wd_modify (ws : Array (BitVec w)) (j i : Nat) (f : BitVec w → BitVec w) :
     wd (ws.modify j f) i = if j = i ∧ j < ws.size then f (wd ws i) else wd ws i := by
   unfold wd
   simp only [Array.getD_eq_getD_getElem?, Array.getElem?_modify]
@@ -29,26 +32,26 @@ theorem wd_modify (ws : Array (BitVec w)) (j i : Nat) (f : BitVec w → BitVec w
     · simp [h2]
   · simp [h]
 
-theorem wd_replicate (n i : Nat) (x : BitVec w) :
+theorem Edit.wd_replicate (n i : Nat) (x : BitVec w) :
     wd (Array.replicate n x) i = if i < n then x else 0#w := by
   unfold wd
   simp only [Array.getD_eq_getD_getElem?, Array.getElem?_replicate]
   by_cases h : i < n <;> simp [h]
 
-theorem wd_ofFn (n i : Nat) (f : Fin n → BitVec w) :
+theorem Edit.wd_ofFn (n i : Nat) (f : Fin n → BitVec w) :
     wd (Array.ofFn f) i = if h : i < n then f ⟨i, h⟩ else 0#w := by
   unfold wd
   simp only [Array.getD_eq_getD_getElem?, Array.getElem?_ofFn]
   by_cases h : i < n <;> simp [h]
 
-theorem wd_oob (ws : Array (BitVec w)) (i : Nat) (h : ws.size ≤ i) : wd ws i = 0#w := by
+theorem Edit.wd_oob (ws : Array (BitVec w)) (i : Nat) (h : ws.size ≤ i) : wd ws i = 0#w := by
   unfold wd
   simp [Array.getD_eq_getD_getElem?, Array.getElem?_eq_none h]
 
-theorem bitAt_def (ws : Array (BitVec w)) (i : Nat) : bitAt ws i = (wd ws (i / w)).getLsbD (i % w) := rfl
+theorem Edit.bitAt_def (ws : Array (BitVec w)) (i : Nat) : bitAt ws i = (wd ws (i / w)).getLsbD (i % w) := rfl
 
 /-- `for i in a..b { data[i] = x }` -/
-theorem forRange_fill (a b : Nat) (x : BitVec w) (ws : Array (BitVec w)) :
+theorem Edit.forRange_fill (a b : Nat) (x : BitVec w) (ws : Array (BitVec w)) :
     (forRange a b (fun i a => a.setIfInBounds i x) ws).size = ws.size ∧
     ∀ i, wd (forRange a b (fun i a => a.setIfInBounds i x) ws) i =
       if a ≤ i ∧ i < b ∧ i < ws.size then x else wd ws i := by
@@ -66,7 +69,7 @@ theorem forRange_fill (a b : Nat) (x : BitVec w) (ws : Array (BitVec w)) :
       rw [List.range'_concat, List.foldl_append]
       simp only [List.foldl_cons, List.foldl_nil, Nat.one_mul]
       refine ⟨by simp [ih.1], fun i => ?_⟩
-      rw [wd_setIfInBounds, ih.1, ih.2 i]
+      rw [Edit.wd_setIfInBounds, ih.1, ih.2 i]
       by_cases h1 : a + k = i ∧ a + k < ws.size
       · have : a ≤ i ∧ i < a + (k + 1) ∧ i < ws.size := by omega
         simp [h1, this]
@@ -85,7 +88,7 @@ theorem forRange_fill (a b : Nat) (x : BitVec w) (ws : Array (BitVec w)) :
     simp [h, this]
 
 -- ---- set ----------------------------------------------------------------------------------------------
-theorem getLsbD_b2w (b : Bool) (k : Nat) (hw : 0 < w) : (b2w w b).getLsbD k = (decide (k = 0) && b) := by
+theorem Edit.getLsbD_b2w (b : Bool) (k : Nat) (hw : 0 < w) : (b2w w b).getLsbD k = (decide (k = 0) && b) := by
   unfold b2w
   cases b <;> simp [BitVec.getLsbD_one, hw]
 
@@ -103,11 +106,11 @@ theorem Raw.bitAt_set (s : Raw w) (i j : Nat) (b : Bool) (hw : 0 < w) (hi : i < 
   have ei := idx_eq (w := w) i
   have ej := idx_eq (w := w) j
   unfold Raw.set
-  simp only [bitAt_def, wd_setIfInBounds]
+  simp only [Edit.bitAt_def, Edit.wd_setIfInBounds]
   by_cases hd : i / w = j / w
   · rw [if_pos ⟨hd, hin⟩]
     simp only [BitVec.getLsbD_or, BitVec.getLsbD_and, BitVec.getLsbD_not, BitVec.getLsbD_shiftLeft,
-      BitVec.getLsbD_one, getLsbD_b2w _ _ hw]
+      BitVec.getLsbD_one, Edit.getLsbD_b2w _ _ hw]
     rw [hd] at ei
     by_cases hm : j % w = i % w
     · have : j = i := by omega
@@ -121,7 +124,7 @@ theorem Raw.bitAt_set (s : Raw w) (i j : Nat) (b : Bool) (hw : 0 < w) (hi : i < 
   · have hne : ¬ j = i := by intro h; apply hd; rw [h]
     rw [if_neg (fun h => hd h.1), if_neg hne]
 
-theorem testBit_setBit (v i j : Nat) (b : Bool) :
+theorem Edit.testBit_setBit (v i j : Nat) (b : Bool) :
     (v - (v.testBit i).toNat * 2 ^ i + b.toNat * 2 ^ i).testBit j = if j = i then b else v.testBit j := by
   have hl : v % 2 ^ i < 2 ^ i := Nat.mod_lt _ (Nat.two_pow_pos i)
   have e1 : v = 2 ^ i * (v / 2 ^ i) + v % 2 ^ i := (Nat.div_add_mod v (2 ^ i)).symm
@@ -172,7 +175,7 @@ theorem Raw.set_refines (s : Raw w) (i : Nat) (b : Bool) (hw : 0 < w) (h : s.Inv
     rw [Raw.abs_bit _ _ hw, Raw.bitAt_set s i j b hw hc]
     unfold BV.set BV.bit
     simp only
-    rw [testBit_setBit]
+    rw [Edit.testBit_setBit]
     have := Raw.abs_bit s j hw
     unfold BV.bit at this
     rw [this]
@@ -221,24 +224,489 @@ theorem Raw.pop_refines (s : Raw w) (hw : 0 < w) (h : s.Inv) :
     exact ⟨h, rfl, rfl⟩
 
 -- ---- capacity arithmetic ---------------------------------------------------------------------------
-theorem cap_le_iff (n c : Nat) (hw : 0 < w) : capFromBitLen w n ≤ c ↔ n ≤ c * w := by
+theorem Edit.cap_le_iff (n c : Nat) (hw : 0 < w) : capFromBitLen w n ≤ c ↔ n ≤ c * w := by
   unfold capFromBitLen
   rw [Nat.div_le_iff_le_mul_add_pred hw]
   have : w * c = c * w := Nat.mul_comm _ _
   omega
 
-theorem le_cap_mul (n : Nat) (hw : 0 < w) : n ≤ capFromBitLen w n * w :=
-  (cap_le_iff n _ hw).mp (Nat.le_refl _)
+theorem Edit.le_cap_mul (n : Nat) (hw : 0 < w) : n ≤ capFromBitLen w n * w :=
+  (Edit.cap_le_iff n _ hw).mp (Nat.le_refl _)
 
-theorem cap_le_succ (n : Nat) (hw : 0 < w) : capFromBitLen w n ≤ n / w + 1 := by
-  rw [cap_le_iff n _ hw]
+theorem Edit.cap_le_succ (n : Nat) (hw : 0 < w) : capFromBitLen w n ≤ n / w + 1 := by
+  rw [Edit.cap_le_iff n _ hw]
   have := idx_eq (w := w) n
   have := Nat.mod_lt n hw
   have : (n / w + 1) * w = w * (n / w) + w := by rw [Nat.add_mul, Nat.one_mul, Nat.mul_comm]
   omega
 
-theorem div_lt_cap (i n : Nat) (hw : 0 < w) (h : i < n) : i / w < capFromBitLen w n := by
+theorem Edit.div_lt_cap (i n : Nat) (hw : 0 < w) (h : i < n) : i / w < capFromBitLen w n := by
   rw [Nat.div_lt_iff_lt_mul hw]
-  exact Nat.lt_of_lt_of_le h (le_cap_mul n hw)
+  exact Nat.lt_of_lt_of_le h (Edit.le_cap_mul n hw)
+
+-- ---- shrink ----------------------------------------------------------------------------------------------
+theorem Raw.size_shrink (s : Raw w) (n : Nat) : (s.shrink n).data.size = s.data.size := by
+  unfold Raw.shrink
+  simp only [size_maskAt]
+  exact (Edit.forRange_fill _ _ _ _).1
+
+theorem Raw.bitAt_shrink (s : Raw w) (n i : Nat) (hw : 0 < w) (h : s.Inv) :
+    bitAt (s.shrink n).data i = (bitAt s.data i && decide (i < n)) := by
+  unfold Raw.shrink
+  simp only
+  obtain ⟨hs, hwd⟩ := Edit.forRange_fill (n / w + 1) (capFromBitLen w s.length) (0#w) s.data
+  have hz : ∀ j, (n / w + 1) * w ≤ j →
+      bitAt (forRange (n / w + 1) (capFromBitLen w s.length) (fun i a => a.setIfInBounds i 0#w) s.data) j
+        = false := by
+    intro j hj
+    rw [Edit.bitAt_def, hwd]
+    split
+    · simp
+    · rename_i hnot
+      have h1 : n / w + 1 ≤ j / w := (Nat.le_div_iff_mul_le hw).mpr hj
+      apply h.2
+      by_cases hc : capFromBitLen w s.length ≤ j / w
+      · have := (Nat.le_div_iff_mul_le hw).mp hc
+        have := Edit.le_cap_mul s.length hw
+        omega
+      · have : s.data.size ≤ j / w := by omega
+        have := (Nat.le_div_iff_mul_le hw).mp this
+        have := h.1
+        omega
+  rw [bitAt_maskAt _ _ _ hw hz]
+  by_cases hi : i < n
+  · have : i / w ≤ n / w := Nat.div_le_div_right (Nat.le_of_lt hi)
+    rw [Edit.bitAt_def, hwd, if_neg (by omega)]
+    rfl
+  · simp [hi]
+
+theorem Raw.shrink_refines (s : Raw w) (n : Nat) (b : Bool) (hw : 0 < w) (h : s.Inv) (hn : n ≤ s.length) :
+    (s.shrink n).Inv ∧ (s.shrink n).abs = s.abs.resize n b ∧ (s.shrink n).data.size = s.data.size := by
+  refine ⟨⟨?_, ?_⟩, ?_, Raw.size_shrink s n⟩
+  · rw [Raw.size_shrink]; have := h.1; exact Nat.le_trans hn this
+  · intro j hj
+    have hj : n ≤ j := hj
+    rw [Raw.bitAt_shrink s n j hw h]
+    have : ¬ j < n := by omega
+    simp [this]
+  · refine BV.ext_bits ?_ ?_
+    · unfold BV.resize; rw [if_pos (by rw [Raw.abs_len]; exact hn)]; rfl
+    · intro j
+      rw [Raw.abs_bit _ _ hw, Raw.bitAt_shrink s n j hw h]
+      unfold BV.resize
+      rw [if_pos (by rw [Raw.abs_len]; exact hn)]
+      unfold BV.bit
+      simp only
+      rw [Nat.testBit_mod_two_pow]
+      have hb := Raw.abs_bit s j hw
+      unfold BV.bit at hb
+      rw [hb, Bool.and_comm]
+
+-- ---- grow ------------------------------------------------------------------------------------------------
+theorem Edit.getLsbD_sign (b : Bool) (k : Nat) :
+    (if b then BitVec.allOnes w else 0#w).getLsbD k = (decide (k < w) && b) := by
+  cases b <;> simp
+
+theorem Raw.size_grow (s : Raw w) (n : Nat) (b : Bool) : (s.grow n b).data.size = s.data.size := by
+  unfold Raw.grow
+  simp only [size_maskAt]
+  rw [(Edit.forRange_fill _ _ _ _).1]
+  simp
+
+/-- the storage after the two fill steps of `grow`, before the final mask -/
+theorem Edit.grow_fill_bits (s : Raw w) (n j : Nat) (sign : BitVec w) (b : Bool) (hw : 0 < w) (h : s.Inv)
+    (hsign : ∀ k, sign.getLsbD k = (decide (k < w) && b))
+    (h1 : s.length < n) (h2 : n ≤ s.data.size * w) :
+    bitAt (forRange (s.length / w + 1) (capFromBitLen w n) (fun i a => a.setIfInBounds i sign)
+        (s.data.modify (s.length / w) (· ||| (sign &&& ~~~ mask w (s.length % w))))) j
+      = if j < s.length then bitAt s.data j
+        else (b && decide (j / w < capFromBitLen w n ∧ j / w < s.data.size)) := by
+  obtain ⟨_, hwd⟩ := Edit.forRange_fill (s.length / w + 1) (capFromBitLen w n) sign
+    (s.data.modify (s.length / w) (· ||| (sign &&& ~~~ mask w (s.length % w))))
+  have hsz : (s.data.modify (s.length / w) (· ||| (sign &&& ~~~ mask w (s.length % w)))).size
+      = s.data.size := by simp
+  have mj := Nat.mod_lt j hw
+  have key := lt_iff_div_mod hw j s.length
+  have hlw : s.length / w < s.data.size := (Nat.div_lt_iff_lt_mul hw).mpr (by omega)
+  have hlc : s.length / w < capFromBitLen w n := Edit.div_lt_cap _ _ hw h1
+  rw [Edit.bitAt_def, hwd, hsz, Edit.wd_modify]
+  by_cases hlt : j / w < s.length / w
+  · have hj : j < s.length := key.mpr (Or.inl hlt)
+    rw [if_neg (by omega), if_neg (by omega), if_pos hj]; rfl
+  · by_cases heq : j / w = s.length / w
+    · rw [if_neg (by omega), if_pos ⟨heq.symm, hlw⟩]
+      simp only [BitVec.getLsbD_or, BitVec.getLsbD_and, BitVec.getLsbD_not, getLsbD_mask, hsign]
+      by_cases hm : j % w < s.length % w
+      · have hj : j < s.length := key.mpr (Or.inr ⟨heq, hm⟩)
+        rw [if_pos hj]
+        simp [hm, mj]; rfl
+      · have hj : ¬ j < s.length := by rw [key]; omega
+        rw [if_neg hj]
+        have hf : bitAt s.data j = false := h.2 j (by omega)
+        rw [Edit.bitAt_def] at hf
+        have hc : j / w < capFromBitLen w n ∧ j / w < s.data.size := by omega
+        rw [hf]; simp [hm, mj, hc]
+    · have hj : ¬ j < s.length := by rw [key]; omega
+      rw [if_neg hj]
+      by_cases hc : j / w < capFromBitLen w n ∧ j / w < s.data.size
+      · rw [if_pos (by omega), hsign]
+        simp [mj, hc]
+      · rw [if_neg (by omega), if_neg (by omega)]
+        have hf : bitAt s.data j = false := h.2 j (by omega)
+        rw [Edit.bitAt_def] at hf
+        rw [hf]; simp [hc]
+
+theorem Raw.bitAt_grow (s : Raw w) (n i : Nat) (b : Bool) (hw : 0 < w) (h : s.Inv)
+    (h1 : s.length < n) (h2 : n ≤ s.data.size * w) :
+    bitAt (s.grow n b).data i = if i < s.length then bitAt s.data i else (b && decide (i < n)) := by
+  unfold Raw.grow
+  simp only
+  have hfill := fun j => Edit.grow_fill_bits s n j (if b then BitVec.allOnes w else 0#w) b hw h
+    (Edit.getLsbD_sign b) h1 h2
+  rw [bitAt_maskAt _ _ _ hw]
+  · rw [hfill]
+    by_cases hi : i < s.length
+    · have : i < n := by omega
+      simp [hi, this]
+    · rw [if_neg hi, if_neg hi]
+      by_cases hn : i < n
+      · have h3 : i / w < capFromBitLen w n := Edit.div_lt_cap _ _ hw hn
+        have h4 : i / w < s.data.size := (Nat.div_lt_iff_lt_mul hw).mpr (by omega)
+        simp [hn, h3, h4]
+      · simp [hn]
+  · intro j hj
+    rw [hfill]
+    have hjw : n / w + 1 ≤ j / w := (Nat.le_div_iff_mul_le hw).mpr hj
+    have := Edit.cap_le_succ n hw
+    have hnj : n ≤ j := by
+      have := idx_eq (w := w) n
+      have := Nat.mod_lt n hw
+      have : (n / w + 1) * w = w * (n / w) + w := by rw [Nat.add_mul, Nat.one_mul, Nat.mul_comm]
+      omega
+    rw [if_neg (by omega)]
+    have : ¬ (j / w < capFromBitLen w n ∧ j / w < s.data.size) := by omega
+    simp [this]
+
+theorem Edit.testBit_extend (v l n j : Nat) (b : Bool) (hv : v < 2 ^ l) (hn : l ≤ n) :
+    (v + (if b then (2 ^ (n - l) - 1) * 2 ^ l else 0)).testBit j
+      = if j < l then v.testBit j else (b && decide (j < n)) := by
+  cases b
+  · simp only [Bool.false_eq_true, if_false, Nat.add_zero, Bool.false_and]
+    by_cases hj : j < l
+    · rw [if_pos hj]
+    · rw [if_neg hj]
+      exact Nat.testBit_lt_two_pow (Nat.lt_of_lt_of_le hv (Nat.pow_le_pow_right (by omega) (by omega)))
+  · simp only [if_true, Bool.true_and]
+    rw [Nat.add_comm, Nat.mul_comm, Nat.testBit_two_pow_mul_add _ hv, Nat.testBit_two_pow_sub_one]
+    by_cases hj : j < l
+    · rw [if_pos hj, if_pos hj]
+    · rw [if_neg hj, if_neg hj]
+      congr 1
+      apply propext
+      omega
+
+theorem BV.resize_len (a : BV) (n : Nat) (b : Bool) : (a.resize n b).len = n := by
+  unfold BV.resize; split <;> rfl
+
+theorem Raw.grow_refines (s : Raw w) (n : Nat) (b : Bool) (hw : 0 < w) (h : s.Inv)
+    (h1 : s.length < n) (h2 : n ≤ s.data.size * w) :
+    (s.grow n b).Inv ∧ (s.grow n b).abs = s.abs.resize n b ∧ (s.grow n b).data.size = s.data.size := by
+  refine ⟨⟨?_, ?_⟩, ?_, Raw.size_grow s n b⟩
+  · rw [Raw.size_grow]; exact h2
+  · intro j hj
+    have hj : n ≤ j := hj
+    rw [Raw.bitAt_grow s n j b hw h h1 h2, if_neg (by omega)]
+    have : ¬ j < n := by omega
+    simp [this]
+  · refine BV.ext_bits ?_ ?_
+    · rw [BV.resize_len]; rfl
+    · intro j
+      rw [Raw.abs_bit _ _ hw, Raw.bitAt_grow s n j b hw h h1 h2]
+      unfold BV.resize
+      rw [if_neg (show ¬ n ≤ s.abs.len by rw [Raw.abs_len]; omega)]
+      unfold BV.bit
+      simp only
+      have hwf : s.abs.val < 2 ^ s.abs.len := h.wf hw
+      rw [Edit.testBit_extend _ _ _ _ _ hwf (by rw [Raw.abs_len]; omega), Raw.abs_len]
+      have hb := Raw.abs_bit s j hw
+      unfold BV.bit at hb
+      rw [hb]
+
+-- ---- Bvf: push, resize, zeros, ones ----------------------------------------------------------------------
+/-- the common body of `Bvf::push` / `Bvd::push` once capacity is available -/
+theorem Raw.push_core (s : Raw w) (b : Bool) (hw : 0 < w) (h : s.Inv) (hc : s.length < s.data.size * w) :
+    (({ s with length := s.length + 1 } : Raw w).set s.length b).Inv ∧
+    (({ s with length := s.length + 1 } : Raw w).set s.length b).abs = s.abs.push b ∧
+    (({ s with length := s.length + 1 } : Raw w).set s.length b).data.size = s.data.size := by
+  have hinv : ({ s with length := s.length + 1 } : Raw w).Inv :=
+    ⟨hc, fun i hi => h.2 i (by have : s.length + 1 ≤ i := hi; omega)⟩
+  obtain ⟨r1, r2, r3⟩ := Raw.set_refines ({ s with length := s.length + 1 } : Raw w) s.length b hw hinv
+    (Nat.lt_succ_self _)
+  refine ⟨r1, ?_, r3⟩
+  rw [r2]
+  have hwf : s.abs.val < 2 ^ s.length := h.wf hw
+  have hb : s.abs.val.testBit s.length = false := Nat.testBit_lt_two_pow hwf
+  unfold BV.set BV.push BV.bit
+  show BV.mk (s.length + 1) (s.abs.val - (s.abs.val.testBit s.length).toNat * 2 ^ s.length
+      + b.toNat * 2 ^ s.length) = BV.mk (s.length + 1) (s.abs.val + b.toNat * 2 ^ s.length)
+  rw [hb]
+  simp
+
+theorem Bvf.push_ok (s : Raw w) (b : Bool) (hw : 0 < w) (h : s.Inv) (hc : s.length < s.data.size * w) :
+    ∃ r, Bvf.push s b = .ok r ∧ r.Inv ∧ r.abs = s.abs.push b ∧ r.data.size = s.data.size := by
+  unfold Bvf.push Raw.cap
+  rw [if_pos hc]
+  exact ⟨_, rfl, Raw.push_core s b hw h hc⟩
+
+theorem Bvf.push_panic (s : Raw w) (b : Bool) (hc : s.data.size * w ≤ s.length) :
+    Bvf.push s b = .panic := by
+  unfold Bvf.push Raw.cap
+  rw [if_neg (by omega)]
+
+theorem BV.resize_self (a : BV) (b : Bool) (h : a.WF) : a.resize a.len b = a := by
+  unfold BV.resize
+  rw [if_pos (Nat.le_refl _), Nat.mod_eq_of_lt h]
+
+theorem Bvf.resize_ok (s : Raw w) (n : Nat) (b : Bool) (hw : 0 < w) (h : s.Inv)
+    (hn : n ≤ s.data.size * w ∨ n ≤ s.length) :
+    ∃ r, Bvf.resize s n b = .ok r ∧ r.Inv ∧ r.abs = s.abs.resize n b ∧ r.data.size = s.data.size := by
+  have hcap : n ≤ s.data.size * w := by have := h.1; omega
+  unfold Bvf.resize Raw.cap
+  by_cases h1 : n < s.length
+  · rw [if_pos h1]
+    exact ⟨_, rfl, Raw.shrink_refines s n b hw h (Nat.le_of_lt h1)⟩
+  · rw [if_neg h1]
+    by_cases h2 : n > s.length
+    · rw [if_pos h2, if_pos hcap]
+      exact ⟨_, rfl, Raw.grow_refines s n b hw h h2 hcap⟩
+    · rw [if_neg h2]
+      have : n = s.length := by omega
+      subst this
+      exact ⟨_, rfl, h, (BV.resize_self s.abs b (h.wf hw)).symm, rfl⟩
+
+theorem Bvf.resize_panic (s : Raw w) (n : Nat) (b : Bool) (h1 : s.data.size * w < n) (h2 : s.length < n) :
+    Bvf.resize s n b = .panic := by
+  unfold Bvf.resize Raw.cap
+  rw [if_neg (by omega), if_pos h2, if_neg (by omega)]
+
+-- zeros / ones
+theorem Edit.bitAt_replicate (N i : Nat) (x : BitVec w) :
+    bitAt (Array.replicate N x) i = (decide (i / w < N) && x.getLsbD (i % w)) := by
+  rw [Edit.bitAt_def, Edit.wd_replicate]
+  by_cases h : i / w < N <;> simp [h]
+
+theorem Bvf.zeros_ok (N n : Nat) (hw : 0 < w) (hn : n ≤ N * w) :
+    ∃ r, Bvf.zeros w N n = .ok r ∧ r.Inv ∧ r.abs = BV.zeros n ∧ r.data.size = N := by
+  unfold Bvf.zeros
+  rw [if_neg (by omega)]
+  refine ⟨_, rfl, ⟨by simpa using hn, fun i _ => ?_⟩, ?_, by simp⟩
+  · show bitAt (Array.replicate N 0#w) i = false
+    rw [Edit.bitAt_replicate]; simp
+  · refine BV.ext_bits (by rfl) fun i => ?_
+    rw [Raw.abs_bit _ _ hw]
+    show bitAt (Array.replicate N 0#w) i = (0 : Nat).testBit i
+    rw [Edit.bitAt_replicate]; simp
+
+theorem Bvf.zeros_panic (N n : Nat) (hn : N * w < n) : Bvf.zeros w N n = .panic := by
+  unfold Bvf.zeros
+  rw [if_pos hn]
+
+theorem Bvf.ones_ok (N n : Nat) (hw : 0 < w) (hn : n ≤ N * w) :
+    ∃ r, Bvf.ones w N n = .ok r ∧ r.Inv ∧ r.abs = BV.ones n ∧ r.data.size = N := by
+  unfold Bvf.ones
+  rw [if_neg (by omega)]
+  have hbit : ∀ i, bitAt (mod2n (Array.replicate N (BitVec.allOnes w)) n) i = decide (i < n) := by
+    intro i
+    rw [bitAt_mod2n _ _ _ hw, Edit.bitAt_replicate]
+    have mi := Nat.mod_lt i hw
+    by_cases hi : i < n
+    · have : i / w < N := (Nat.div_lt_iff_lt_mul hw).mpr (by omega)
+      simp [hi, this, mi]
+    · simp [hi]
+  refine ⟨_, rfl, ⟨by simpa [size_mod2n] using hn, fun i hi => ?_⟩, ?_, by simp [size_mod2n]⟩
+  · have hi : n ≤ i := hi
+    show bitAt (mod2n (Array.replicate N (BitVec.allOnes w)) n) i = false
+    rw [hbit]; simp; omega
+  · refine BV.ext_bits (by rfl) fun i => ?_
+    rw [Raw.abs_bit _ _ hw]
+    show bitAt (mod2n (Array.replicate N (BitVec.allOnes w)) n) i = (2 ^ n - 1).testBit i
+    rw [hbit, Nat.testBit_two_pow_sub_one]
+
+theorem Bvf.ones_panic (N n : Nat) (hn : N * w < n) : Bvf.ones w N n = .panic := by
+  unfold Bvf.ones
+  rw [if_pos hn]
+
+-- ---- Bvd: reserve, shrinkToFit ---------------------------------------------------------------------------
+/-- reallocation to `c` words keeping the old contents (`Vec::resize`-like copy) -/
+theorem Edit.bitAt_realloc (ws : Array (BitVec w)) (c j : Nat) :
+    bitAt (Array.ofFn (n := c) fun i => wd ws i.val) j = (decide (j / w < c) && bitAt ws j) := by
+  rw [Edit.bitAt_def, Edit.wd_ofFn]
+  by_cases h : j / w < c
+  · simp [h]; rfl
+  · simp [h]
+
+theorem Bvd.reserve_length (s : Raw 64) (k : Nat) : (Bvd.reserve s k).length = s.length := by
+  unfold Bvd.reserve; simp only; split <;> rfl
+
+theorem Bvd.reserve_refines (s : Raw 64) (k : Nat) (h : s.Inv) :
+    (Bvd.reserve s k).Inv ∧ (Bvd.reserve s k).abs = s.abs ∧
+    s.length + k ≤ (Bvd.reserve s k).data.size * 64 ∧
+    (Bvd.reserve s k).length = s.length ∧ s.data.size ≤ (Bvd.reserve s k).data.size := by
+  have hw : 0 < 64 := by decide
+  unfold Bvd.reserve Bvd.capW
+  simp only
+  by_cases hc : capFromBitLen 64 (s.length + k) > s.data.size
+  · rw [if_pos hc]
+    have hcap := Edit.le_cap_mul (w := 64) (s.length + k) hw
+    refine ⟨⟨?_, ?_⟩, ?_, ?_, rfl, ?_⟩
+    · show s.length ≤ (Array.ofFn _).size * 64
+      rw [Array.size_ofFn]; omega
+    · intro j hj
+      have hj : s.length ≤ j := hj
+      show bitAt (Array.ofFn _) j = false
+      rw [Edit.bitAt_realloc, h.2 j hj]; simp
+    · refine Raw.abs_eq_of_bits _ _ hw hw (by rfl) ?_
+      intro j
+      show bitAt (Array.ofFn _) j = bitAt s.data j
+      rw [Edit.bitAt_realloc]
+      by_cases hj : j / 64 < capFromBitLen 64 (s.length + k)
+      · simp [hj]
+      · rw [bitAt_oob s.data j (by omega) hw]; simp
+    · show s.length + k ≤ (Array.ofFn _).size * 64
+      rw [Array.size_ofFn]; exact hcap
+    · show s.data.size ≤ (Array.ofFn _).size
+      rw [Array.size_ofFn]; omega
+  · rw [if_neg hc]
+    have : s.length + k ≤ s.data.size * 64 := (Edit.cap_le_iff (w := 64) _ _ hw).mp (by omega)
+    exact ⟨h, rfl, this, rfl, Nat.le_refl _⟩
+
+theorem Bvd.shrinkToFit_refines (s : Raw 64) (h : s.Inv) :
+    (Bvd.shrinkToFit s).Inv ∧ (Bvd.shrinkToFit s).abs = s.abs ∧
+    (Bvd.shrinkToFit s).data.size = capFromBitLen 64 s.length := by
+  have hw : 0 < 64 := by decide
+  unfold Bvd.shrinkToFit Bvd.capW
+  have hcap := Edit.le_cap_mul (w := 64) s.length hw
+  by_cases hc : capFromBitLen 64 s.length < s.data.size
+  · rw [if_pos hc]
+    refine ⟨⟨?_, ?_⟩, ?_, ?_⟩
+    · show s.length ≤ (Array.ofFn _).size * 64
+      rw [Array.size_ofFn]; exact hcap
+    · intro j hj
+      have hj : s.length ≤ j := hj
+      show bitAt (Array.ofFn _) j = false
+      rw [Edit.bitAt_realloc, h.2 j hj]; simp
+    · refine Raw.abs_eq_of_bits _ _ hw hw (by rfl) ?_
+      intro j
+      show bitAt (Array.ofFn _) j = bitAt s.data j
+      rw [Edit.bitAt_realloc]
+      by_cases hj : j / 64 < capFromBitLen 64 s.length
+      · simp [hj]
+      · rw [h.2 j (by omega)]; simp
+    · show (Array.ofFn _).size = _
+      rw [Array.size_ofFn]
+  · rw [if_neg hc]
+    have : capFromBitLen 64 s.length ≤ s.data.size := (Edit.cap_le_iff (w := 64) _ _ hw).mpr h.1
+    exact ⟨h, rfl, by omega⟩
+
+-- ---- Bvd: push, resize, zeros, ones, withCapacity --------------------------------------------------------
+theorem Bvd.push_refines (s : Raw 64) (b : Bool) (h : s.Inv) :
+    (Bvd.push s b).Inv ∧ (Bvd.push s b).abs = s.abs.push b := by
+  have hw : 0 < 64 := by decide
+  obtain ⟨r1, r2, r3, r4, _⟩ := Bvd.reserve_refines s 1 h
+  unfold Bvd.push
+  simp only
+  obtain ⟨p1, p2, _⟩ := Raw.push_core (Bvd.reserve s 1) b hw r1 (by omega)
+  exact ⟨p1, by rw [p2, r2]⟩
+
+theorem Bvd.resize_refines (s : Raw 64) (n : Nat) (b : Bool) (h : s.Inv) :
+    (Bvd.resize s n b).Inv ∧ (Bvd.resize s n b).abs = s.abs.resize n b := by
+  have hw : 0 < 64 := by decide
+  unfold Bvd.resize
+  by_cases h1 : n < s.length
+  · rw [if_pos h1]
+    obtain ⟨p1, p2, _⟩ := Raw.shrink_refines s n b hw h (Nat.le_of_lt h1)
+    exact ⟨p1, p2⟩
+  · rw [if_neg h1]
+    by_cases h2 : n > s.length
+    · rw [if_pos h2]
+      obtain ⟨r1, r2, r3, r4, _⟩ := Bvd.reserve_refines s (n - s.length) h
+      obtain ⟨p1, p2, _⟩ := Raw.grow_refines (Bvd.reserve s (n - s.length)) n b hw r1 (by omega) (by omega)
+      exact ⟨p1, by rw [p2, r2]⟩
+    · rw [if_neg h2]
+      have : n = s.length := by omega
+      subst this
+      exact ⟨h, (BV.resize_self s.abs b (h.wf hw)).symm⟩
+
+theorem Bvd.zeros_refines (n : Nat) :
+    (Bvd.zeros n).Inv ∧ (Bvd.zeros n).abs = BV.zeros n ∧ (Bvd.zeros n).data.size = capFromBitLen 64 n := by
+  have hw : 0 < 64 := by decide
+  unfold Bvd.zeros Bvd.capW
+  refine ⟨⟨?_, fun i _ => ?_⟩, ?_, by simp⟩
+  · show n ≤ (Array.replicate _ _).size * 64
+    rw [Array.size_replicate]; exact Edit.le_cap_mul n hw
+  · show bitAt (Array.replicate _ 0#64) i = false
+    rw [Edit.bitAt_replicate]; simp
+  · refine BV.ext_bits (by rfl) fun i => ?_
+    rw [Raw.abs_bit _ _ hw]
+    show bitAt (Array.replicate _ 0#64) i = (0 : Nat).testBit i
+    rw [Edit.bitAt_replicate]; simp
+
+theorem Bvd.withCapacity_refines (c : Nat) :
+    (Bvd.withCapacity c).Inv ∧ (Bvd.withCapacity c).abs = BV.zeros 0 ∧
+    (Bvd.withCapacity c).data.size = capFromBitLen 64 c ∧ c ≤ (Bvd.withCapacity c).data.size * 64 := by
+  have hw : 0 < 64 := by decide
+  unfold Bvd.withCapacity Bvd.capW
+  refine ⟨⟨Nat.zero_le _, fun i _ => ?_⟩, ?_, by simp, ?_⟩
+  · show bitAt (Array.replicate _ 0#64) i = false
+    rw [Edit.bitAt_replicate]; simp
+  · refine BV.ext_bits (by rfl) fun i => ?_
+    rw [Raw.abs_bit _ _ hw]
+    show bitAt (Array.replicate _ 0#64) i = (0 : Nat).testBit i
+    rw [Edit.bitAt_replicate]; simp
+  · show c ≤ (Array.replicate _ _).size * 64
+    rw [Array.size_replicate]; exact Edit.le_cap_mul c hw
+
+theorem Bvd.bitAt_ones (n i : Nat) :
+    bitAt (Bvd.maskLast (Array.replicate (capFromBitLen 64 n) (BitVec.allOnes 64)) n) i = decide (i < n) := by
+  unfold Bvd.maskLast lastBits
+  rw [Edit.bitAt_def, Edit.wd_modify, Edit.wd_replicate, Array.size_replicate]
+  have hcap : capFromBitLen 64 n = (n + 63) / 64 := rfl
+  have mi : i % 64 < 64 := Nat.mod_lt _ (by decide)
+  by_cases hn : n = 0
+  · subst hn
+    have : capFromBitLen 64 0 = 0 := rfl
+    rw [this]
+    simp
+  · rw [if_neg hn]
+    by_cases hl : capFromBitLen 64 n - 1 = i / 64 ∧ capFromBitLen 64 n - 1 < capFromBitLen 64 n
+    · rw [if_pos hl, if_pos (by omega)]
+      simp only [BitVec.getLsbD_and, getLsbD_mask, BitVec.getLsbD_allOnes]
+      have : (i % 64 < (n - 1) % 64 + 1) ↔ i < n := by omega
+      simp [mi, this]
+    · rw [if_neg hl]
+      by_cases hi : i / 64 < capFromBitLen 64 n
+      · rw [if_pos hi, BitVec.getLsbD_allOnes]
+        have : i < n := by omega
+        simp [mi, this]
+      · rw [if_neg hi]
+        have : ¬ i < n := by omega
+        simp [this]
+
+theorem Bvd.ones_refines (n : Nat) :
+    (Bvd.ones n).Inv ∧ (Bvd.ones n).abs = BV.ones n ∧ (Bvd.ones n).data.size = capFromBitLen 64 n := by
+  have hw : 0 < 64 := by decide
+  unfold Bvd.ones Bvd.capW
+  have hsz : (Bvd.maskLast (Array.replicate (capFromBitLen 64 n) (BitVec.allOnes 64)) n).size
+      = capFromBitLen 64 n := by simp [Bvd.maskLast]
+  refine ⟨⟨?_, fun i hi => ?_⟩, ?_, hsz⟩
+  · show n ≤ (Bvd.maskLast _ n).size * 64
+    rw [hsz]; exact Edit.le_cap_mul n hw
+  · have hi : n ≤ i := hi
+    show bitAt (Bvd.maskLast _ n) i = false
+    rw [Bvd.bitAt_ones]; simp; omega
+  · refine BV.ext_bits (by rfl) fun i => ?_
+    rw [Raw.abs_bit _ _ hw]
+    show bitAt (Bvd.maskLast _ n) i = (2 ^ n - 1).testBit i
+    rw [Bvd.bitAt_ones, Nat.testBit_two_pow_sub_one]
 
 end Bva
